@@ -8,11 +8,12 @@ What is enumerated (every element of the product, no sampling):
   grid (explicit non-uniform node sets of 2, 3, 5 [thorough: 8, 12, 40] nodes, ascending and
   descending, dyadic and non-dyadic) x layout (rank 1..4, the interpolated axis in every
   position, passive dims of size 2, 3, 2) x missing-node pattern (every subset of nodes for
-  n <= 5 [thorough: n <= 8], every subset of size <= 2 for larger n; for rank > 1 a missing node
+  n <= 5 [thorough: n <= 8]; for larger n the empty set, every single node and every pair of nodes at most two
+  apart; for rank > 1 a missing node
   is missing for all passive indices) x mode (linear, nearest) x data pattern (every unit impulse,
   a linear ramp, a generic sign-changing sequence, a variable without the coordinate)
-  x target (every node, mid point, quarter point, one ulp either side of every node, one ulp
-  inside / outside both ends, far outside), as one array and one by one as scalars.
+  x target (every node, mid point, quarter point, 31/64 and 33/64 of every bin, one ulp either
+  side of every node, one ulp inside / outside both ends, far outside), as one array and one by one as scalars.
 * the same on datetime64 axes (coordinate "time" with the library's time conversion of the
   targets - datetime64 arrays, datetime lists, scalars - and a datetime64 coordinate with
   another name with one-nanosecond-inside/outside targets).
@@ -30,7 +31,6 @@ that is 1/2 only up to rounding: either rule; a target one ulp outside a descend
 mirrored coordinate is not exactly representable: end value or missing).
 """
 import itertools
-import math
 import traceback
 from datetime import datetime, timedelta, timezone
 from fractions import Fraction as Fr
@@ -43,7 +43,7 @@ ID = "C13"
 LEVEL = "exploration"
 RULE = (
     "full product grid x layout (rank 1..4, interpolated axis in every position) x missing-node subset "
-    "(all subsets for n<=5 [thorough n<=8], all subsets of size<=2 above) x mode {linear, nearest} x data pattern "
+    "(all subsets for n<=5 [thorough n<=8]; above: none, every single node, every pair at most two nodes apart) x mode {linear, nearest} x data pattern "
     "{every unit impulse, ramp, generic, pass-through} x target {every node, mid, quarter, 31/64 and 33/64 of every bin, +-1ulp at "
     "every node, 1ulp inside/outside both ends, far outside}, array and scalar targets, float and datetime64 axes; "
     "two-coordinate grid interpolation in both orders; 1D/2D spectra x 3 layouts x {time, frequency, time+frequency} "
@@ -359,9 +359,15 @@ def subsets(n, tier):
             for s in itertools.combinations(range(n), r):
                 yield frozenset(s)
     else:
-        for r in range(3):
-            for s in itertools.combinations(range(n), r):
-                yield frozenset(s)
+        # a target only ever sees two adjacent nodes, so pairs further than two nodes apart act independently:
+        # the empty set, every single node, every pair of nodes at most two apart
+        yield frozenset()
+        for k in range(n):
+            yield frozenset([k])
+        for k in range(n):
+            for d in (1, 2):
+                if k + d < n:
+                    yield frozenset([k, k + d])
 
 
 PASSIVE = [("a", 2), ("b", 3), ("c", 2)]
@@ -738,6 +744,8 @@ def run_grid2(unit):
             "v_xy": (("x", "y"), f_xy), "v_yx": (("y", "x"), f_xy.T.copy()), "v_axy": (("a", "x", "y"), f_axy),
             "v_xay": (("x", "a", "y"), np.moveaxis(f_axy, 0, 1).copy()),
             "v_x": (("x",), f_x), "v_y": (("y",), f_y), "v_a": (("a",), f_a), "v_0": ((), 42.0),
+            # an angular variable (by name): only its missing / not-missing pattern is claimed here, values are C14
+            "wave_direction": (("x", "y"), (200.0 + 40.0 * np.sin(f_xy)) % 360.0),
         },
         coords={"x": gx.coordinate(), "y": gy.coordinate(), "a": A},
     )
@@ -799,6 +807,19 @@ def run_grid2(unit):
                         "v_x": ambx, "v_y": amby}
                 ambs["v_xay"] = np.moveaxis(ambs["v_axy"], 0, 1)
                 scale = float(np.max(np.abs(f_axy)))
+                if "wave_direction" in out and out["wave_direction"].shape == ref_xy.shape:
+                    gd = np.asarray(out["wave_direction"].values, dtype=float)
+                    c.evaluations += int(gd.size)
+                    wrong = (np.isnan(gd) != np.isnan(ref_xy)) & ~amb_cell
+                    if np.any(wrong):
+                        idx = tuple(int(i) for i in np.argwhere(wrong)[0])
+                        c.violation(
+                            dict(key0, check="in-range target missing" if np.isnan(gd[idx]) else "outside target not missing",
+                                 var="wave_direction"),
+                            f"wave_direction{list(idx)}: library {gd[idx]!r}, reference missing={bool(np.isnan(ref_xy[idx]))} "
+                            f"({int(np.sum(wrong))} of {gd.size} cells)", x_targets=tx, y_targets=ty)
+                else:
+                    c.violation(dict(key0, check="shape", var="wave_direction"), "wave_direction missing or mis-shaped")
                 for name, ref in refs.items():
                     if name not in out:
                         c.violation(dict(key0, check="variable dropped", var=name), f"{name} missing from the result")
@@ -915,7 +936,7 @@ def run_spectrum(unit):
     lead = LEADS[layout]
     gf = Grid("freq", FREQ)
     gt = Grid("time", TIME_S, exact_half=True, exact_ends=True, kind="time_s")
-    fk = [(k, t) for k, t in gf.targets() if k != "node_ulp" or True]
+    fk = gf.targets()
     tkk = gt.targets()
     fax = len(lead)
     n_nontriv = 0
